@@ -1,6 +1,6 @@
 """C05 - control flow, scoping and closures: scope table, exit algebra, declaration/assignment layering, short circuit."""
 import re
-from .core import (scope_constructors, builds_error, CheckError, find_match, arm_region, pat_str, strip_ref, origins, only_when, pat_paths,
+from .core import (try_body_scope, scope_constructors, builds_error, CheckError, find_match, arm_region, pat_str, strip_ref, origins, only_when, pat_paths,
                    Registry, op_local)
 
 META = {
@@ -73,6 +73,13 @@ def run(F, rep, tier):
             rep.viol('R5.1', 'scope|%s|unexpected' % v, 'Expr::%s opens a child scope; the documented scoping constructs are functions, loops, switch arms and catch clauses' % v, wp[0].loc())
         else:
             rep.viol('R5.1', 'scope|%s|missing' % v, 'Expr::%s no longer opens a child scope' % v, eb.loc(min(regions[v])) if regions[v] else None)
+    ok_t, det_t, loc_t = try_body_scope(F)
+    if ok_t is None:
+        rep.error('R5.1', 'Try: ' + det_t)
+    elif ok_t:
+        rep.ok('R5.1', 'evaluate Expr::Try body scope', det_t)
+    else:
+        rep.viol('R5.1', 'scope|Try|body-in-child-scope', 'evaluation runs the body of `try` in a child scope (%s) while freeze and the documented scoping treat declarations of a try body as declarations of the enclosing scope: a name declared in a try body is invisible afterwards, and frozen code resolves it lazily in the outer scope' % det_t, loc_t)
     allowed_callers = {evaluate, 'eval::evaluate_for', 'eval::<impl core::Closure>::run', 'eval::Closure::run'}
     for b in F.all_bodies():
         for c in b.calls:
